@@ -96,15 +96,16 @@ def basic_render(
             nbs = sorted(helpers.neighbors(vert), key=sort)
         else:
             nbs = helpers.neighbors(vert)
+        nodes = []
         for end in nbs:
             if rfunc:
                 node = rfunc(end)
             else:
                 node = repr(end)
-            line += f"{node}, "
+            nodes.append(f"{node}")
 
-        # remove trailing comma & space
-        line = line[:-2]
+        # (joining avoids a trailing comma & space, also when there are none)
+        line += ", ".join(nodes)
         lines.append(line)
 
     return "\n".join(lines)
